@@ -35,6 +35,7 @@ import (
 	"sort"
 	"strconv"
 	"strings"
+	"syscall"
 	"time"
 
 	"github.com/KevoDB/kevo/pkg/compaction"
@@ -64,6 +65,45 @@ type c12file struct {
 	ts      int64
 	size    int64
 	entries []c12entry
+}
+
+// c12merged: the newest version (highest sequence number) of every key over all tables
+func c12merged(fs []*c12file) map[string]c12entry {
+	m := map[string]c12entry{}
+	for _, f := range fs {
+		for _, e := range f.entries {
+			if cur, ok := m[string(e.key)]; !ok || e.seq > cur.seq {
+				m[string(e.key)] = e
+			}
+		}
+	}
+	return m
+}
+
+func c12mergedDiff(a, b map[string]c12entry) string {
+	var ks []string
+	for k := range a {
+		ks = append(ks, k)
+	}
+	for k := range b {
+		if _, ok := a[k]; !ok {
+			ks = append(ks, k)
+		}
+	}
+	sort.Strings(ks)
+	for _, k := range ks {
+		x, okx := a[k]
+		y, oky := b[k]
+		switch {
+		case okx && !oky:
+			return fmt.Sprintf("key %s (sequence %d) is in no table any more", render([]byte(k)), x.seq)
+		case !okx && oky:
+			return fmt.Sprintf("key %s appeared (sequence %d)", render([]byte(k)), y.seq)
+		case x.seq != y.seq || x.tomb != y.tomb || !bytes.Equal(x.val, y.val):
+			return fmt.Sprintf("newest version of key %s went from sequence %d to %d", render([]byte(k)), x.seq, y.seq)
+		}
+	}
+	return ""
 }
 
 func (f *c12file) find(k []byte) *c12entry {
@@ -124,6 +164,7 @@ type c12write struct {
 }
 
 type c12run struct {
+	nFault, nFaultErr int
 	dir     string
 	e       *engine.EngineFacade
 	out     func(string)
@@ -781,7 +822,7 @@ func (r *c12run) watchWorker(op int) int {
 // failing input.
 func c12wellFormed(c *Case) bool {
 	arity := map[string]int{"put": 3, "del": 2, "get": 2, "flush": 1, "full": 1, "trigger": 1, "range": 3,
-		"reopen": 1, "retire": 1, "auto": 1, "files": 1, "batch": 2, "commit": 2}
+		"reopen": 1, "retire": 1, "auto": 1, "files": 1, "batch": 2, "commit": 2, "failtrigger": 1}
 	for i := 0; i < len(c.Lines); i++ {
 		l := c.Lines[i]
 		if n, ok := arity[l[0]]; !ok || len(l) != n {
@@ -810,6 +851,19 @@ func runC12(c *Case, out func(string)) {
 		out("ORACLE ok")
 		out("META ops=0 nontrivial=0")
 		return
+	}
+	if hdrVal(c.Hdr, "mode", "model") == "fault" {
+		// cases with an injected fault are decided by the oracle only (the model has no failing
+		// compaction): observations become notes, the model runner sees no operation
+		raw := out
+		out = func(s string) {
+			switch strings.SplitN(s, " ", 2)[0] {
+			case "ORACLE", "META", "KF", "NOTE", "IMPL-ERROR", "IMPL-PANIC":
+				raw(s)
+			default:
+				raw("NOTE " + s)
+			}
+		}
 	}
 	dir := tmpDir("c12-")
 	defer os.RemoveAll(dir)
@@ -920,6 +974,42 @@ loop:
 				out("NOTE trigger error " + strings.ReplaceAll(err.Error(), " ", "_"))
 			}
 			r.afterCompaction(pre, fmt.Sprintf("compaction cycle (op %d)", i))
+		case "failtrigger":
+			// one compaction cycle in which the creation of an output table fails: from the first
+			// finished output on, the process cannot open another file (RLIMIT_NOFILE lowered to 0
+			// until the cycle returns). Whatever the cycle reports, the merged content of the table
+			// directory (newest version per key) must be what it was: a failed compaction may leave
+			// partial outputs behind, but it may not remove or replace its inputs.
+			pre := r.dump(false)
+			var old syscall.Rlimit
+			lowered := false
+			verifhook.OnHit(func(site string, n int) {
+				if site == "compact.output_done" && !lowered {
+					if syscall.Getrlimit(syscall.RLIMIT_NOFILE, &old) == nil {
+						lowered = syscall.Setrlimit(syscall.RLIMIT_NOFILE, &syscall.Rlimit{Cur: 0, Max: old.Max}) == nil
+					}
+				}
+			})
+			terr := r.e.TriggerCompaction()
+			if lowered {
+				syscall.Setrlimit(syscall.RLIMIT_NOFILE, &old)
+			}
+			verifhook.OnHit(nil)
+			r.nFault++
+			if terr != nil {
+				r.nFaultErr++
+			}
+			out(fmt.Sprintf("NOTE failtrigger fault_injected=%v error=%v", lowered, terr != nil))
+			post := c12fileNames(r.dump(false))
+			if terr != nil {
+				for _, f := range pre {
+					if post[f.name] == nil {
+						r.fail("", fmt.Sprintf("a compaction cycle that reported an error removed the table %s (%d entries)", f.name, len(f.entries)))
+						break
+					}
+				}
+			}
+			r.dump(true)
 		case "range":
 			pre := r.dump(false)
 			if err := r.e.CompactRange(tok(l[1]), tok(l[2])); err != nil {
@@ -995,6 +1085,7 @@ loop:
 	if r.nCompact > 0 && r.nConflict > 0 && r.reopenedAfterCompact {
 		nt = 1
 	}
+	out(fmt.Sprintf("NOTE fault_cycles=%d of which reported an error=%d", r.nFault, r.nFaultErr))
 	out(fmt.Sprintf("META ops=%d compactions=%d conflicting=%d retired_reopens=%d gets=%d failures=%d task_l0=%d task_promotion=%d task_ratio=%d task_range=%d nontrivial=%d",
 		len(c.Lines), r.nCompact, r.nConflict, r.nRetired, nGets, len(r.fails), r.kinds["l0"], r.kinds["promotion"], r.kinds["ratio"], r.kinds["range"], nt))
 }
@@ -1266,6 +1357,36 @@ func (g *c12gen) deepTombstone(id string) {
 	fmt.Fprintf(w, "reopen\nget %s\nget %s\nend\n", key(k), key(other))
 }
 
+// a compaction cycle whose output cannot be completed (several small output tables: sstmax 1..2;
+// the fault strikes after the first one), then ordinary cycles, everything flushed, the log
+// retired, a restart, and the reads (mode=fault: oracle only)
+func (g *c12gen) faultCycle(id string) {
+	w, r := g.w, g.r
+	fmt.Fprintf(w, "case %s mode=fault memsize=100000 maxmem=2 ratio=10 sstmax=%d\n", id, 1+r.Intn(2))
+	key := func(i int) string { return mkTok([]byte(fmt.Sprintf("k%02d", i))) }
+	nk := 4 + r.Intn(5)
+	for t := 0; t < 2+r.Intn(2); t++ {
+		for j := 0; j < 2+r.Intn(4); j++ {
+			k := r.Intn(nk)
+			if r.Intn(5) == 0 {
+				fmt.Fprintf(w, "del %s\n", key(k))
+			} else {
+				fmt.Fprintf(w, "put %s %s\n", key(k), mkTok([]byte(fmt.Sprintf("v%d-%d", t, j))))
+			}
+		}
+		fmt.Fprintf(w, "flush\n")
+	}
+	fmt.Fprintf(w, "failtrigger\n")
+	for t := r.Intn(3); t > 0; t-- {
+		fmt.Fprintf(w, "trigger\n")
+	}
+	fmt.Fprintf(w, "full\nretire\n")
+	for i := 0; i < nk; i++ {
+		fmt.Fprintf(w, "get %s\n", key(i))
+	}
+	fmt.Fprintf(w, "end\n")
+}
+
 func genC12(w *bufio.Writer, seed int64, n int, tier string) {
 	r := rand.New(rand.NewSource(seed*7919 + 12))
 	for ci := 0; ci < n; ci++ {
@@ -1276,6 +1397,10 @@ func genC12(w *bufio.Writer, seed int64, n int, tier string) {
 		}
 		if ci%16 == 9 {
 			g.deepTombstone(fmt.Sprintf("c12-%d-%d", seed, ci))
+			continue
+		}
+		if ci%16 == 13 {
+			g.faultCycle(fmt.Sprintf("c12-%d-%d", seed, ci))
 			continue
 		}
 		if ci%4 == 2 {
